@@ -414,7 +414,7 @@ func c13Run(srv *svc.Server, sc c13Scenario, r *core.Rand) (viol [][2]string, in
 			t.Close()
 			return nil, true, false, nil
 		}
-		launchLim(1, -1, 45*time.Second)
+		launchLim(1, -1, 180*time.Second) // (generous: on a loaded machine the 65 535 heartbeats alone may take a minute)
 		rxa, oka, toa := t.Next(20 * time.Second)
 		if toa || !oka || rxa.F == nil || rxa.F.ID != 0x8103 {
 			t.Close()
